@@ -180,7 +180,9 @@ impl<T: BitRead> PackedRead for T {
     #[inline]
     fn read_semi_constrained_whole_number(&mut self, lower_bound: i64) -> Result<i64, Error> {
         let n = self.read_non_negative_binary_integer(None, None)?;
-        Ok((n as i64) + lower_bound)
+        lower_bound
+            .checked_add_unsigned(n)
+            .ok_or_else(|| ErrorKind::ValueExceedsMaxInt.into())
     }
 
     /// ITU-T X.691 | ISO/IEC 8825-2:2015, chapter 11.8
@@ -525,7 +527,12 @@ impl<T: BitWrite> PackedWrite for T {
         if value < lower_bound {
             Err(ErrorKind::ValueNotInRange(value, lower_bound, i64::MAX).into())
         } else {
-            self.write_non_negative_binary_integer(None, None, (value - lower_bound) as u64)
+            // value >= lower_bound: the difference always fits into an u64
+            self.write_non_negative_binary_integer(
+                None,
+                None,
+                value.wrapping_sub(lower_bound) as u64,
+            )
         }
     }
 
